@@ -3,7 +3,39 @@ package main
 import (
 	"go/ast"
 	"go/token"
+	"path/filepath"
+	"regexp"
+	"runtime"
+	"strings"
 )
+
+// Every registered extension is owned by the properties its file name mentions
+// (x_c07.go -> C07, x_c02c18.go -> C02 C18, x_f64p_c18f.go -> C18). While an extension runs,
+// broken() tags its reports with the owners, and ./check raises a broken tie only for the
+// properties that depend on it (a change that makes C07's lock-discipline fact unextractable
+// says nothing about C04).
+var ownerRe = regexp.MustCompile(`c[0-9][0-9]`)
+
+func callerOwner() string {
+	_, file, _, ok := runtime.Caller(2)
+	if !ok {
+		return "*"
+	}
+	ids := ownerRe.FindAllString(strings.TrimSuffix(filepath.Base(file), ".go"), -1)
+	if len(ids) == 0 {
+		return "*"
+	}
+	return strings.ToUpper(strings.Join(ids, ","))
+}
+
+var currentOwner = "*"
+
+func withOwner(owner string, f func()) {
+	saved := currentOwner
+	currentOwner = owner
+	defer func() { currentOwner = saved }()
+	f()
+}
 
 // Per-property extractor extensions register themselves from their own file
 // (extract/x_<prop>.go) so that several people can add to the extractor without editing
@@ -14,29 +46,41 @@ import (
 // bodies of the package in dir. Report a shape that can no longer be found with broken().
 type localsFn func(files []*ast.File, fset *token.FileSet) []string
 
-var localsReg = map[string][]localsFn{}
+type ownedLocals struct {
+	owner string
+	f     localsFn
+}
 
-func registerLocals(dir string, f localsFn) { localsReg[dir] = append(localsReg[dir], f) }
+var localsReg = map[string][]ownedLocals{}
+
+func registerLocals(dir string, f localsFn) {
+	localsReg[dir] = append(localsReg[dir], ownedLocals{callerOwner(), f})
+}
 
 // factFn checks structural facts about the sources against written expectations;
 // a fact that no longer holds is reported with broken().
 type factFn func(repo string, parsed map[string][]*ast.File, fset *token.FileSet)
 
-var factReg []factFn
+type ownedFact struct {
+	owner string
+	f     factFn
+}
 
-func registerFact(f factFn) { factReg = append(factReg, f) }
+var factReg []ownedFact
+
+func registerFact(f factFn) { factReg = append(factReg, ownedFact{callerOwner(), f}) }
 
 func locals(dir string, files []*ast.File, fset *token.FileSet) []string {
 	var out []string
-	for _, f := range localsReg[dir] {
-		out = append(out, f(files, fset)...)
+	for _, l := range localsReg[dir] {
+		withOwner(l.owner, func() { out = append(out, l.f(files, fset)...) })
 	}
 	return out
 }
 
 func checkFacts(repo string, parsed map[string][]*ast.File, fset *token.FileSet) {
 	for _, f := range factReg {
-		f(repo, parsed, fset)
+		withOwner(f.owner, func() { f.f(repo, parsed, fset) })
 	}
 }
 
